@@ -88,6 +88,44 @@ func init() {
 			if err != nil {
 				break
 			}
+			if strings.HasPrefix(line, "SECOND") {
+				// a second Service object, on an address of its own, while the first keeps serving
+				svc2, err := varlink.NewService("Verif", a[1]+"-second", "1", "u")
+				if err != nil {
+					fmt.Println("FAILED", err)
+					os.Exit(1)
+				}
+				done2 := make(chan error, 1)
+				go func() {
+					defer func() {
+						if x := recover(); x != nil {
+							fmt.Println("PANIC", x)
+							os.Exit(7)
+						}
+					}()
+					done2 <- svc2.Listen(context.Background(), a[0]+"-second", 0)
+				}()
+				ready := false
+				for i := 0; i < 100000 && !ready; i++ {
+					if l, _ := svc2.GetListener(); l != nil {
+						fmt.Println("READY2", l.Addr().String())
+						ready = true
+						break
+					}
+					select {
+					case err := <-done2:
+						fmt.Println("FAILED2", err)
+						ready = true
+					default:
+					}
+					time.Sleep(100 * time.Microsecond)
+				}
+				if !ready {
+					fmt.Println("FAILED2 no listener")
+				}
+				period--
+				continue
+			}
 			// "NEXT" keeps the environment, "NEXT <pid mode>" changes LISTEN_PID for the coming period
 			if f := strings.Fields(line); len(f) == 2 {
 				setPid(f[1])
@@ -150,6 +188,9 @@ type c20Case struct {
 	// PeriodPid: LISTEN_PID mode of the 2nd, 3rd, ... period when it differs from the first (the process changes its own
 	// environment between two periods); "" = unchanged
 	PeriodPid []string `json:"period_pid,omitempty"`
+	// Second: while the first service serves (on its address argument: only used where the model selects no descriptor), a
+	// second Service object of the same process listens on an address of its own
+	Second bool `json:"second,omitempty"`
 }
 
 // c20Model (DESIGN A.6): index of the inherited descriptor (0 = fd 3) that must be served, or -1 = the address.
@@ -450,6 +491,40 @@ func c20One(r *fw.Run, c *c20Case, idx int) {
 			report("unexpected-endpoint-served", "%s answers although the model selects %s", a, expWhat)
 		}
 	}
+	// a second Service object in the same process (only where the first serves its address argument): each answers on its
+	// own address with its own identity (seeded change C20-O: the first Bind gives the inherited descriptor number back to
+	// the system, the second Bind then mistakes whatever owns that number now for the inherited socket)
+	if c.Second && sel < 0 {
+		fmt.Fprintln(stdin, "SECOND")
+		var l2 string
+		select {
+		case l2 = <-lineCh:
+		case <-time.After(30 * time.Second):
+			report("listen-failed", "second service: the helper did not report within 30 s")
+			cmd.Process.Kill()
+			finish()
+			return
+		}
+		switch {
+		case strings.HasPrefix(l2, "PANIC"):
+			report("panic", "second service: helper: %s\n%s", l2, clip(stderr.String(), 2000))
+		case !strings.HasPrefix(l2, "READY2"):
+			report("listen-failed", "second service of the process: Listen on an address of its own did not serve: %q", l2)
+		default:
+			if ok, wrong := c20Probe("unix", fallback+"-second", product+"-second", 10*time.Second); !ok {
+				report("expected-endpoint-not-served", "second service of the process: its address argument must be served, but no GetInfo reply arrived within 10 s; helper reported %q", l2)
+			} else if wrong != "" {
+				report("expected-endpoint-not-served", "second service of the process: its address answered with %q", clip(wrong, 200))
+			}
+			for k := 0; k < 8; k++ {
+				if ok, wrong := c20Probe("unix", fallback, product, 10*time.Second); !ok || wrong != "" {
+					report("expected-endpoint-not-served", "first service, after a second service was started in the same process: probe %d of its address was answered=%v with %q", k, ok, clip(wrong, 200))
+					break
+				}
+			}
+			r.Count("second_service_runs", 1)
+		}
+	}
 	// further serve periods of the same object in the same process: the environment still says "activated", so the same
 	// endpoint is served again (the fallback address differs per period: "<fallback>-p<n>")
 	for period := 2; period <= c.Periods; period++ {
@@ -550,6 +625,14 @@ func runC20(r *fw.Run) {
 	cases = append(cases, &c20Case{PidMode: "own", FDS: sp("1"), NamesVar: "extra", Kind: "socket", OtherK: "socket", Periods: 3, PeriodPid: []string{"unset", "own"}},
 		&c20Case{PidMode: "garbage", FDS: sp("3"), FDNames: sp("x:varlink:y"), NamesVar: "extra", Kind: "socket", OtherK: "socket", Periods: 3, PeriodPid: []string{"own", "other"}},
 		&c20Case{PidMode: "unset", FDS: sp("1"), NamesVar: "extra", Kind: "socket", OtherK: "socket", Periods: 2, PeriodPid: []string{"own"}})
+	// two Service objects in one process where the first one had to fall back to its address argument
+	for _, kind := range []string{"file", "pipe"} {
+		cases = append(cases, &c20Case{PidMode: "own", FDS: sp("1"), NamesVar: "extra", Kind: kind, OtherK: "socket", Second: true},
+			&c20Case{PidMode: "own", FDS: sp("3"), FDNames: sp("x:varlink:y"), NamesVar: "extra", Kind: kind, OtherK: "socket", Second: true},
+			&c20Case{PidMode: "own", FDS: sp("2"), FDNames: sp("varlink:y"), NamesVar: "extra", Kind: kind, OtherK: kind, Second: true})
+	}
+	cases = append(cases, &c20Case{PidMode: "unset", NamesVar: "extra", Kind: "socket", OtherK: "socket", Second: true},
+		&c20Case{PidMode: "other", FDS: sp("1"), NamesVar: "extra", Kind: "socket", OtherK: "socket", Second: true})
 	cases = append(cases, &c20Case{PidMode: "own-padded", FDS: sp("1"), NamesVar: "extra", Kind: "socket", OtherK: "socket"},
 		&c20Case{PidMode: "own-suffix", FDS: sp("1"), NamesVar: "extra", Kind: "socket", OtherK: "socket"})
 	for _, fds := range []string{"1x", "1.5", "1,3", "2-1", "3;", "0x1", "1e0", "١"} {
